@@ -149,7 +149,10 @@ Proof. exact fit_to_cubic_affine_endpoints. Qed.
 (** On any list of well-formed sub-paths (MoveTo, drawing elements, optional ClosePath) the
     result is the concatenation of the per-sub-path outputs [sub_out]: the non-degenerate
     segments are split into runs at the corners; a one-segment run passes through unchanged,
-    longer runs go through the fitter; only the first run of a sub-path keeps its MoveTo. *)
+    longer runs go through the fitter; only the first run of a sub-path keeps its MoveTo.
+    ClosePath rule (code after repair 045795e): a closed sub-path gets its ClosePath exactly when it
+    has at least one non-degenerate segment; a sub-path whose elements all have zero length yields
+    no output at all, neither MoveTo nor ClosePath ([sub_out], and the Examples below). *)
 Theorem C18_simplify_spec :
   forall (T : Type) (H : Scalar T) (fitter : list (PathEl T) -> list (PathEl T)) (thresh : T)
          (sps : list (Subpath T)),
@@ -337,11 +340,20 @@ Proof.
   split; [discriminate|]. split; [reflexivity|]. split; [reflexivity|]. rewrite E2. reflexivity.
 Qed.
 
-(** a degenerate sub-path (no segment) is not covered by [C18_simplify_structure]: the model, like
-    the code, then emits a ClosePath without MoveTo (outside the property's domain; noted in docs) *)
+(** a closed sub-path with only zero-length elements produces nothing (no MoveTo, no ClosePath) —
+    alone, and in the middle of a path, where the neighbouring sub-paths are unaffected *)
 Example C18_simplify_degenerate_subpath :
   simplify_bezpath ex_fitter 0x1.0624dd2f1a9fcp-10%float [MoveTo (mkPoint 1 1); LineTo (mkPoint 1 1); ClosePath]%float
-  = Some [ClosePath].
+  = Some [].
+Proof. vm_compute. reflexivity. Qed.
+
+Example C18_simplify_degenerate_subpath_middle :
+  simplify_bezpath ex_fitter 0x1.0624dd2f1a9fcp-10%float
+    [MoveTo (mkPoint 0 0); LineTo (mkPoint 1 0); LineTo (mkPoint 1 1); ClosePath;
+     MoveTo (mkPoint 3 3); QuadTo (mkPoint 3 3) (mkPoint 3 3); CurveTo (mkPoint 3 3) (mkPoint 3 3) (mkPoint 3 3); ClosePath;
+     MoveTo (mkPoint 5 5); LineTo (mkPoint 6 6); ClosePath]%float =
+  Some [MoveTo (mkPoint 0 0); LineTo (mkPoint 1 0); LineTo (mkPoint 1 1); ClosePath;
+        MoveTo (mkPoint 5 5); LineTo (mkPoint 6 6); ClosePath]%float.
 Proof. vm_compute. reflexivity. Qed.
 
 (** the guard of the offset theorems holds e.g. on the straight cubic (0,0)..(3,0) *)
